@@ -3,9 +3,9 @@ CONSTANTS
   NX = 2
   Rows <- RowsA
   Atoms <- AtomsA
-  MaxLevel = 2
-  WithPairs = FALSE
-  ReasonBug = TRUE
+  MaxLevel = 1
+  WithPairs = TRUE
+  ReasonBug = FALSE
 INVARIANT RowsEquivalent
 INVARIANT BasicDisjoint
 INVARIANT ValuesSatisfyRows
